@@ -618,8 +618,12 @@ func (fr *frame) execInstr(ins ssa.Instruction, st *State, reach string, xedges 
 		} else {
 			fnv = fr.get(t.Call.Value)
 		}
-		fr.siteAsserts(t, args, st, reach)
-		return fr.doCall(t, &t.Call, fnv, args, st, reach, xedges, t.Pos())
+		fr.siteAsserts(t, args, st, reach, false)
+		r2 := fr.doCall(t, &t.Call, fnv, args, st, reach, xedges, t.Pos())
+		if r2 != "false" {
+			fr.siteAsserts(t, args, st, r2, true)
+		}
+		return r2
 	case *ssa.Defer:
 		var args []Val
 		for _, a := range t.Call.Args {
@@ -1241,14 +1245,14 @@ func (ft *FT) bytesStr(st *State, x Term) Term {
 }
 
 // siteAsserts: "assert at \"text\"#k EXPR" clauses bound to call instructions.
-func (fr *frame) siteAsserts(call *ssa.Call, args []Val, st *State, reach string) {
+func (fr *frame) siteAsserts(call *ssa.Call, args []Val, st *State, reach string, after bool) {
 	if fr.fc == nil || len(fr.fc.Asserts) == 0 {
 		return
 	}
 	ft := fr.ft
 	e := ft.e
 	for _, a := range fr.fc.Asserts {
-		if a.E == nil {
+		if a.E == nil || a.After != after {
 			continue
 		}
 		target := fr.assertTarget(a)
@@ -1312,7 +1316,7 @@ func (fr *frame) assertTarget(a *Clause) *ssa.Call {
 	if a.Occ < 1 || a.Occ > len(lines) {
 		// the statement the assertion was attached to is gone: report the assertion as failed
 		key := "missing-site:" + a.Site + a.Text
-		if !fr.ft.assumed[key] && a.Kind == "assert" && fr.depth == 0 {
+		if !fr.ft.assumed[key] && (a.Kind == "assert" || a.Kind == "assign") && fr.depth == 0 {
 			fr.ft.assumed[key] = true
 			o := fr.oblig("assert", a.Props, fr.fn.Pos(), a.name(), "true", "false")
 			o.SrcLine = fmt.Sprintf("statement %q the assertion is attached to no longer exists in %s", a.Site, fr.fn.Name())
